@@ -127,7 +127,7 @@ def decide_problem(res, prob, replay_kind="one"):
     P_or = {}
     for e in edge_nodes:
         vals = M.edge_param_values(prob, e["name"])
-        Q_or, wp = M.build_Q(model, states, vals, prob["mprobs"], sm=sm)
+        Q_or, wp = M.build_Q(model, states, vals, prob["mprobs"], sm=sm, gc=prob.get("gc", 1))
         wp_expected = wp
         if model in M.SOLVED:
             Q_lf = None  # closed-form P: the function has no Q to report (rate_matrix_required=False)
@@ -166,6 +166,22 @@ def decide_problem(res, prob, replay_kind="one"):
             bad("motif-probs-not-as-set", got=mp_got, exp=prob["mprobs"])
     # L1 pruning with the lf's own P matrices
     leaves = M.leaf_vectors(prob["aln"], states, "protein" if kind == "protein" else "nuc", ml)
+    if prob.get("hmm"):
+        # phylo-HMM over rate classes: the likelihood is not a product over columns; decide lnL with the forward algorithm
+        per_bin_l1 = [M.prune_columns(tree, leaves, lambda ch, b=b: P_lf[(ch["name"], b)], wp_expected) for b in range(len(bin_names))]
+        per_bin_or = [M.prune_columns(tree, leaves, lambda ch, b=b: P_or[(ch["name"], b)], wp_expected) for b in range(len(bin_names))]
+        sw = prob["hmm"]["switch"]
+        l1 = M.hmm_forward_lnL(per_bin_l1, bprobs, sw)
+        lor = M.hmm_forward_lnL(per_bin_or, bprobs, sw)
+        res.evals += 1
+        res.count("hmm-bins")
+        pclass = "equal-patch-probs" if abs(sum(bprobs[: len(bprobs) // 2]) - 0.5) < 1e-9 else "unequal-patch-probs"
+        if not (close(lnL, l1, 1e-8, 1e-8) and close(lnL, lor, 1e-7, 1e-7)):
+            bad(f"hmm-bins/lnL-differs-from-forward-algorithm/{pclass}", got=lnL, exp=lor, exp_with_reported_P=l1, switch=sw, bprobs=bprobs)
+        res.sig(model, "hmm", f"bins{bins}", pclass, "switch1" if sw == 1.0 else "switch<1")
+        res.count("problems")
+        res.count("model:" + model)
+        return lf
     cols_l1 = sum(bprobs[b] * M.prune_columns(tree, leaves, lambda ch, b=b: P_lf[(ch["name"], b)], wp_expected) for b in range(len(bin_names)))
     cols_full = sum(bprobs[b] * M.prune_columns(tree, leaves, lambda ch, b=b: P_or[(ch["name"], b)], wp_expected) for b in range(len(bin_names)))
     # G: transition probabilities are only defined to double-precision *absolute* accuracy (~1e-16); columns whose
@@ -233,13 +249,15 @@ def run_case(case):
             bins = 1
             scoped = False
             expm_setting = None
+            hmm = False
             if M.kind_of(model) == "nuc" and cfg < 0.3:
                 bins = rng.choice([2, 3, 4])
+                hmm = rng.random() < 0.4
             elif cfg < 0.55:
                 scoped = True
             if rng.random() < 0.3 and model not in M.SOLVED:  # closed-form models have no expm setting
                 expm_setting = rng.choice(["eigen", "pade", "either", "checked"])
-            prob = M.gen_problem(rng, model, scoped=scoped, bins=bins, expm_setting=expm_setting)
+            prob = M.gen_problem(rng, model, scoped=scoped, bins=bins, expm_setting=expm_setting, hmm=hmm)
             decide_problem(res, prob)
             if i == 0:
                 res.sample({"model": model, "tree": M.newick(prob["tree"]), "aln": prob["aln"], "params": prob["params"], "edge_params": prob["edge_params"], "bins": bins})
@@ -320,5 +338,5 @@ def decide_discrete(res, rng, model):
 
 
 def required(counters, tier):
-    need = ["polytomy", "with-ambiguity", "scoped", "binned", "binned-unequal-bprobs", "solved-P", "zero-length-edge", "all-columns-sum", "L2-rate-matrix", "L3-exponential", "L1-pruning"]
+    need = ["hmm-bins", "polytomy", "with-ambiguity", "scoped", "binned", "binned-unequal-bprobs", "solved-P", "zero-length-edge", "all-columns-sum", "L2-rate-matrix", "L3-exponential", "L1-pruning"]
     return [n for n in need if not counters.get(n)]
